@@ -73,13 +73,18 @@ Fixpoint model_mismatches (i : nat) (cs : list case) : list (nat * nat) :=
             (relative to the genesis difference)
    class 3: the credit a delegator received in BeginBlock(h) differs from what was due at h
             (genesis pending (h,a) + successful undelegations / reward withdrawals maturing at h)
-   class 4: a reward balance is negative *)
+   class 4: a reward balance is negative
+   class 5: BeginBlock(h) "paid" a delegator a NEGATIVE matured undelegation (debited him)
+   class 6: BeginBlock(h) "paid" a delegator a NEGATIVE matured reward withdrawal
+   class 7: a delegator's balance is negative
+   class 8: an active delegation entry is negative *)
 Definition lsum (l : list (addr * Z)) : Z := fold_right (fun x acc => x.2 + acc) 0 l.
 Definition lget (l : list ((N * addr) * Z)) (n : N) (a : addr) : Z :=
   pget (list_to_map l) n a.
 
 Record mon := {
-  m_h : N ; m_prev : snap ; m_due : N -> addr -> Z ; m_don : bool ; m_gap : Z
+  m_h : N ; m_prev : snap ; m_dueu : N -> addr -> Z ; m_duer : N -> addr -> Z ;
+  m_don : bool ; m_gap : Z
 }.
 
 Definition credits_ok (n : nat) (h : N) (due : N -> addr -> Z) (prev cur : snap) : bool :=
@@ -89,7 +94,9 @@ Definition credits_ok (n : nat) (h : N) (due : N -> addr -> Z) (prev cur : snap)
 Definition snap_classes (m : mon) (cur : snap) : list nat :=
   (if s_pool cur <? lsum (s_active cur) then [1%nat] else [])
   ++ (if negb (m_don m) && negb (s_pool cur - lsum (s_active cur) =? m_gap m) then [2%nat] else [])
-  ++ (if forallb (fun v => 0 <=? v) (s_rew cur) then [] else [4%nat]).
+  ++ (if forallb (fun v => 0 <=? v) (s_rew cur) then [] else [4%nat])
+  ++ (if forallb (fun v => 0 <=? v) (s_bal cur) then [] else [7%nat])
+  ++ (if forallb (fun x => 0 <=? x.2) (s_active cur) then [] else [8%nat]).
 
 Fixpoint monitor (n : nat) (k : N) (i : nat) (m : mon) (ops : list op) (res : list bool)
          (snaps : list snap) : list (nat * nat) :=
@@ -97,15 +104,23 @@ Fixpoint monitor (n : nat) (k : N) (i : nat) (m : mon) (ops : list op) (res : li
   | o :: ops', r :: res', cur :: snaps' =>
       let h' := match o with Begin _ => (m_h m + 1)%N | _ => m_h m end in
       let mh := (m_h m + k)%N in
-      let due' := match o, r with
-                  | Undelegate a amt _, true => fupd2 (m_due m) mh a (m_due m mh a + amt)
-                  | WithdrawRw a amt _, true => fupd2 (m_due m) mh a (m_due m mh a + amt)
-                  | _, _ => m_due m
-                  end in
+      let dueu' := match o, r with
+                   | Undelegate a amt _, true => fupd2 (m_dueu m) mh a (m_dueu m mh a + amt)
+                   | _, _ => m_dueu m
+                   end in
+      let duer' := match o, r with
+                   | WithdrawRw a amt _, true => fupd2 (m_duer m) mh a (m_duer m mh a + amt)
+                   | _, _ => m_duer m
+                   end in
       let don' := match o, r with Donate _ _ _, true => true | _, _ => m_don m end in
-      let m' := {| m_h := h' ; m_prev := cur ; m_due := due' ; m_don := don' ; m_gap := m_gap m |} in
+      let m' := {| m_h := h' ; m_prev := cur ; m_dueu := dueu' ; m_duer := duer' ; m_don := don' ;
+                   m_gap := m_gap m |} in
       let here := (match o with
-                   | Begin _ => if credits_ok n h' (m_due m) (m_prev m) cur then [] else [3%nat]
+                   | Begin _ =>
+                       (if credits_ok n h' (fun x a => m_dueu m x a + m_duer m x a) (m_prev m) cur
+                        then [] else [3%nat])
+                       ++ (if forallb (fun a => 0 <=? m_dueu m h' a) (idxs n) then [] else [5%nat])
+                       ++ (if forallb (fun a => 0 <=? m_duer m h' a) (idxs n) then [] else [6%nat])
                    | _ => []
                    end) ++ snap_classes m' cur in
       map (fun cl => (i, cl)) here ++ monitor n k (S i) m' ops' res' snaps'
@@ -116,7 +131,8 @@ Definition case_monitor (c : case) : list (nat * nat) :=
   let g := c_gen c in
   monitor (length (c_addrs c)) (c_k c) 0
           {| m_h := 0 ; m_prev := g ;
-             m_due := (fun h a => lget (s_pend g) h a + lget (s_rpend g) h a) ;
+             m_dueu := (fun h a => lget (s_pend g) h a) ;
+             m_duer := (fun h a => lget (s_rpend g) h a) ;
              m_don := false ; m_gap := s_pool g - lsum (s_active g) |}
           (c_ops c) (c_res c) (c_snaps c).
 
@@ -126,10 +142,11 @@ Fixpoint monitor_all (i : nat) (cs : list case) : list (nat * nat * nat) :=
   | c :: rest => map (fun '(j, cl) => (i, j, cl)) (case_monitor c) ++ monitor_all (S i) rest
   end.
 
-(* per case: (collision trigger, negative-donation trigger) evaluated on the input *)
+(* per case: (negative undelegation, negative reward withdrawal, negative reinvestment) triggers evaluated on the input *)
 Definition case_triggers (c : case) : list Z :=
-  [ if trig_collision (astr_of (c_addrs c)) (genesis_of c) (c_ops c) then 1 else 0 ;
-    if trig_neg_donation (c_ops c) then 1 else 0 ].
+  [ if trig_neg_undelegate (c_ops c) then 1 else 0 ;
+    if trig_neg_withdraw (c_ops c) then 1 else 0 ;
+    if trig_neg_reinvest (c_ops c) then 1 else 0 ].
 
 Definition flat2 (l : list (nat * nat)) : list Z :=
   flat_map (fun '(a, b) => [Z.of_nat a; Z.of_nat b]) l.
